@@ -665,6 +665,15 @@ class Script:
                 time.sleep(0.01)
             time.sleep(0.1)
             return {'ret': True}
+        if o == 'pool_stop':
+            # the worker's process is stopped (SIGSTOP): it reacts neither to a graceful request nor to SIGTERM
+            k, w, pid = ws[op['i']]
+            try:
+                os.kill(w.pid, signal.SIGSTOP)
+            except ProcessLookupError:
+                return {'ret': False}
+            time.sleep(0.05)
+            return {'ret': True}
         if o == 'pool_stuck':
             k, w, pid = ws[op['i']]
             return self.call(lambda: w.enqueue('STUBBORN'), 5)
